@@ -41,6 +41,9 @@ def configs(tier):
     out = [{'kind': 'chunk_bounds', 'U': U}]
     for ne in range(2, U + 1):
         out.append({'kind': 'excerpts', 'ne': ne})
+    # the sample count given as an unsigned NumPy scalar (e.g. an entry of a uint64 array, a header field)
+    for ne, ndt in ((2, 'uint64'), (3, 'uint8'), (4, 'uint32')):
+        out.append({'kind': 'excerpts', 'ne': ne, 'n_dtype': ndt})
     for ne in range(0, U + 1):
         out.append({'kind': 'get_excerpts', 'ne': ne})
     K = 3 if tier == 'quick' else 4
@@ -110,9 +113,14 @@ def run_config(cfg, e):
             ne = cfg['ne']
             n = e.int('n', 0)
             es = e.int('es', 1)
-            e.case_builder = lambda ev: {'kind': kind, 'n': ev(n), 'ne': ne, 'es': ev(es)}
+            ndt = cfg.get('n_dtype')
+            if ndt:
+                # every integer of the call is representable in the scalar's type (NumPy refuses others)
+                hi = int(np.iinfo(ndt).max) if np.dtype(ndt).itemsize < 4 else 2 ** 31 - 1
+                e.assume(sand(n <= hi, es <= hi))
+            e.case_builder = lambda ev: {'kind': kind, 'n': ev(n), 'ne': ne, 'es': ev(es), 'n_dtype': ndt}
             try:
-                ex = list(arr.excerpts(n, n_excerpts=ne, excerpt_size=es))
+                ex = list(arr.excerpts(snp.mkscalar(n, np.dtype(ndt)) if ndt else n, n_excerpts=ne, excerpt_size=es))
             except Exception as exn:
                 e.fail('exception %r' % (exn,))
             e.prove(len(ex) <= ne, 'too many excerpts')
@@ -304,7 +312,12 @@ def replay(case):
         return None
     if kind == 'excerpts':
         n, ne, es = case['n'], case['ne'], case['es']
-        ex = list(arr.excerpts(n, n_excerpts=ne, excerpt_size=es))
+        try:
+            ex = list(arr.excerpts(np.dtype(case['n_dtype']).type(n) if case.get('n_dtype') else n,
+                                   n_excerpts=ne, excerpt_size=es))
+        except Exception as exn:
+            return 'excerpts raised %r' % (exn,)
+        ex = [(int(a), int(b)) for a, b in ex]
         if len(ex) > ne:
             return 'too many excerpts'
         prev = 0
